@@ -250,14 +250,87 @@ func (g *cssgen) selectorList() string {
 	}
 	if g.hostile && r.Intn(15) == 0 {
 		ss = append(ss, r.Pick([]string{"..bad", ":unknown-pseudo", "a::unknown", "", "[", ">"}))
+		g.features["bad-selector-in-list"] = true
 	}
 	return strings.Join(ss, r.Pick([]string{", ", ",", " , "}))
+}
+
+// boxFamily returns 2-5 declarations of one box-shorthand family (shorthand and side longhands interleaved),
+// mixing units the minifier may merge ("safe") with ones it must keep apart (viewport units, calc, var, auto).
+func (g *cssgen) boxFamily() string {
+	r := g.rng
+	fam := r.Intn(4)
+	if fam == 2 && !g.modern {
+		fam = 0
+	}
+	sides := []string{"top", "right", "bottom", "left"}
+	safe := []string{"1px", "2px", "3px", "0", "4px", "1em", "5%", "0px"}
+	unsafe := []string{"1vw", "2vh", "calc(1px + 1vw)", "var(--y, 7px)", "1vmin", "1cqw", "env(safe-area-inset-top, 6px)"}
+	if fam != 1 {
+		unsafe = append(unsafe, "auto")
+	}
+	val := func() string {
+		if r.Intn(3) == 0 {
+			return r.Pick(unsafe)
+		}
+		return r.Pick(safe)
+	}
+	short := func() string {
+		n := 1 + r.Intn(4)
+		vs := make([]string, n)
+		for i := range vs {
+			vs[i] = val()
+		}
+		return strings.Join(vs, " ")
+	}
+	var b strings.Builder
+	for i, n := 0, 2+r.Intn(4); i < n; i++ {
+		imp := ""
+		if r.Intn(9) == 0 {
+			imp = " !important"
+		}
+		if r.Intn(3) == 0 {
+			switch fam {
+			case 0:
+				b.WriteString("margin: " + short())
+			case 1:
+				b.WriteString("padding: " + short())
+			case 2:
+				b.WriteString("inset: " + short())
+			default:
+				b.WriteString("border-width: " + strings.ReplaceAll(short(), "auto", "thin"))
+			}
+		} else {
+			side := r.Pick(sides)
+			switch fam {
+			case 0:
+				b.WriteString("margin-" + side + ": " + val())
+			case 1:
+				b.WriteString("padding-" + side + ": " + val())
+			case 2:
+				b.WriteString(side + ": " + val())
+			default:
+				b.WriteString("border-" + side + "-width: " + strings.ReplaceAll(val(), "auto", "thin"))
+			}
+		}
+		b.WriteString(imp + "; ")
+	}
+	if fam == 2 {
+		b.WriteString("position: absolute; ")
+	}
+	if fam == 3 {
+		b.WriteString("border-style: solid; ")
+	}
+	return b.String()
 }
 
 func (g *cssgen) block(depth int) string {
 	r := g.rng
 	var b strings.Builder
 	n := 1 + r.Intn(4)
+	if r.Intn(5) == 0 {
+		b.WriteString(g.boxFamily())
+	}
 	for i := 0; i < n; i++ {
 		b.WriteString(g.declaration())
 		b.WriteString(r.Pick([]string{"; ", ";", " ; ", ";\n  "}))
@@ -341,6 +414,12 @@ func (g *cssgen) Sheet(n int) string {
 			} else {
 				b.WriteString(g.rule())
 			}
+		case 11:
+			if g.modern {
+				b.WriteString(g.layerPlay())
+			} else {
+				b.WriteString(g.rule())
+			}
 		case 5:
 			b.WriteString("@keyframes " + r.Pick([]string{"k", "k2"}) + " { from { opacity: 0 } 50.0% { opacity: .5 } to { opacity: 1 } }\n")
 		case 6:
@@ -375,6 +454,52 @@ func (g *cssgen) Sheet(n int) string {
 			b.WriteString("/* comment */" + g.rule())
 		default:
 			b.WriteString(g.rule())
+		}
+	}
+	return b.String()
+}
+
+// layerPlay: a layer-order statement (top level, or nested in a single-name layer block) followed by blocks of
+// those layers in another order, all styling the same elements, so that the declared order decides the winner.
+func (g *cssgen) layerPlay() string {
+	r := g.rng
+	g.features["layer-order"] = true
+	names := []string{"m1", "m2", "m3", "m4"}[:2+r.Intn(3)]
+	order := append([]string{}, names...)
+	r.Shuffle(len(order), func(i, j int) { order[i], order[j] = order[j], order[i] })
+	blocks := append([]string{}, names...)
+	r.Shuffle(len(blocks), func(i, j int) { blocks[i], blocks[j] = blocks[j], blocks[i] })
+	parent := r.Pick([]string{"", "", "p1", "p2"})
+	sel := r.Pick([]string{".a", "li", ".b", "p", "div", ".c"})
+	prop := r.Pick([]string{"color", "background-color", "margin-top", "z-index"})
+	var b strings.Builder
+	stmt := "@layer " + strings.Join(order, r.Pick([]string{", ", ","})) + ";"
+	if parent == "" {
+		b.WriteString(stmt + "\n")
+	} else {
+		b.WriteString("@layer " + parent + " { " + stmt + " }\n")
+	}
+	if r.Intn(3) == 0 {
+		b.WriteString(g.rule())
+	}
+	for i, n := range blocks {
+		var v string
+		switch prop {
+		case "color", "background-color":
+			v = []string{"#010203", "#040506", "#070809", "#0a0b0c"}[i]
+		case "margin-top":
+			v = fmt.Sprintf("%dpx", 11+i)
+		default:
+			v = fmt.Sprint(21 + i)
+		}
+		body := sel + " { " + prop + ": " + v + "; " + g.declaration() + " }"
+		switch {
+		case parent == "":
+			b.WriteString("@layer " + n + " { " + body + " }\n")
+		case r.Bool():
+			b.WriteString("@layer " + parent + "." + n + " { " + body + " }\n")
+		default:
+			b.WriteString("@layer " + parent + " { @layer " + n + " { " + body + " } }\n")
 		}
 	}
 	return b.String()
